@@ -31,8 +31,9 @@ VARIABLES l,        \* next line to consume
           lastact,  \* id of the active file in the last dump
           hist,     \* [key -> set of values ever written to it] (C12: what a damaged database may still serve)
           orig,     \* C12: the records each file held before it was damaged: sequence of [name, recs]
+          its,      \* C10: iterator handle -> [snap, match, rev, rc, moved]
           nops      \* ops since reset (diagnostics)
-vars == <<l, n, st, model, batch, rec, maxlim, mg, lastact, hist, orig, nops>>
+vars == <<l, n, st, model, batch, rec, maxlim, mg, lastact, hist, orig, its, nops>>
 
 E == Trace[l]
 Is(ev) == l <= Len(Trace) /\ Trace[l].ev = ev
@@ -47,12 +48,12 @@ Fail(what) == Print(<<"CHECK-FAILED", "line", l, what>>, FALSE)
 Must(name, cond) == IF Chk(name) /\ ~cond THEN Fail(name) ELSE TRUE
 
 Init == /\ l = 1 /\ n = 0 /\ st = "closed" /\ model = <<>> /\ batch = NoBatch
-        /\ rec = RecInit({}) /\ maxlim = 0 /\ mg = NoMg /\ lastact = 0 /\ hist = <<>> /\ orig = <<>> /\ nops = 0
+        /\ rec = RecInit({}) /\ maxlim = 0 /\ mg = NoMg /\ lastact = 0 /\ hist = <<>> /\ orig = <<>> /\ its = <<>> /\ nops = 0
 
 TReset == /\ Is("reset")
           /\ l' = l + 1 /\ n' = E.n /\ st' = "closed"
           /\ model' = [k \in 1..E.n |-> Nil] /\ batch' = NoBatch
-          /\ rec' = RecInit(1..E.n) /\ maxlim' = 0 /\ mg' = NoMg /\ lastact' = 0 /\ hist' = [k \in 1..E.n |-> {}] /\ orig' = <<>> /\ nops' = 0
+          /\ rec' = RecInit(1..E.n) /\ maxlim' = 0 /\ mg' = NoMg /\ lastact' = 0 /\ hist' = [k \in 1..E.n |-> {}] /\ orig' = <<>> /\ its' = <<>> /\ nops' = 0
 
 (* ---- expected outcome of each call ------------------------------------ *)
 \* <<expected error name, expected result, model', batch'>>
@@ -106,7 +107,7 @@ TOp == /\ Is("op")
                       ELSE mg
              /\ hist' = IF e.op \in {"Put", "BPut"} /\ e.k \in K THEN [hist EXCEPT ![e.k] = @ \cup {e.v}] ELSE hist
        /\ l' = l + 1 /\ nops' = nops + 1
-       /\ UNCHANGED <<n, rec, lastact, orig>>
+       /\ UNCHANGED <<n, rec, lastact, orig, its>>
 
 (* ---- observations ------------------------------------------------------ *)
 RECURSIVE AscFrom(_, _)
@@ -162,7 +163,7 @@ TDump ==
                        THEN e.files[CHOOSE i \in 1..Len(e.files) : e.files[i].active = 1].id
                        ELSE lastact
   /\ l' = l + 1
-  /\ UNCHANGED <<n, st, model, batch, maxlim, hist, orig, nops>>
+  /\ UNCHANGED <<n, st, model, batch, maxlim, hist, orig, its, nops>>
 
 \* C20: the backup directory, opened as an independent database while the source is still open,
 \* holds exactly the mapping the source had when Backup was called (no mutation lies between
@@ -171,7 +172,7 @@ TBDump == /\ Is("bdump") /\ st = "open"
           /\ Must("backup", /\ E.open = "ok" /\ E.geterr = "ok" /\ E.close = "ok" /\ ~E.lockcopied
                             /\ \A k \in K : E.vals[k] = model[k]
                             /\ E.keys = LiveSeq /\ E.statkeys = Cardinality(Live(model)))
-          /\ l' = l + 1 /\ UNCHANGED <<n, st, model, batch, rec, maxlim, mg, lastact, hist, orig, nops>>
+          /\ l' = l + 1 /\ UNCHANGED <<n, st, model, batch, rec, maxlim, mg, lastact, hist, orig, its, nops>>
 
 \* C18: right after a successful Merge the hint file and the rewritten data files, decoded with the
 \* package's own readers: the hinted (key, position, size) triples are exactly those of the rewritten
@@ -187,7 +188,7 @@ THint == /\ Is("hint") /\ st = "open"
                                                           /\ e.recs[i].v = model[e.recs[i].k]
                             /\ {e.recs[i].k : i \in 1..Len(e.recs)} = Live(model)
                             /\ Len(e.recs) = Cardinality(Live(model)))
-         /\ l' = l + 1 /\ UNCHANGED <<n, st, model, batch, rec, maxlim, mg, lastact, hist, orig, nops>>
+         /\ l' = l + 1 /\ UNCHANGED <<n, st, model, batch, rec, maxlim, mg, lastact, hist, orig, its, nops>>
 
 \* C18: a copy of both directories opened through the hint (the adopting Open) and then once more by a
 \* plain scan of the same files: same values, same positions, same sizes - and both equal to the model
@@ -196,7 +197,7 @@ THintCmp == /\ Is("hintcmp") /\ st = "open"
                Must("hintcmp", /\ e.opena = "ok" /\ e.openb = "ok" /\ e.closea = "ok"
                                /\ e.vala = e.valb /\ e.idxa = e.idxb
                                /\ \A k \in K : e.vala[k] = model[k])
-            /\ l' = l + 1 /\ UNCHANGED <<n, st, model, batch, rec, maxlim, mg, lastact, hist, orig, nops>>
+            /\ l' = l + 1 /\ UNCHANGED <<n, st, model, batch, rec, maxlim, mg, lastact, hist, orig, its, nops>>
 
 (* ---- C12: damaged files ---------------------------------------------------- *)
 \* the records every file holds before any damage, scanned with the package's reader from the closed database
@@ -231,14 +232,55 @@ TDamage ==
                 /\ ((strict /\ e.folderr = "ok") => e.fk = LiveSeq))
           /\ okErr(e.scanerr)
           /\ \A i \in 1..Len(e.scan) : Ident(e.scan[i]) \in OrigOf(e.file))
-  /\ l' = l + 1 /\ UNCHANGED <<n, st, model, batch, rec, maxlim, mg, lastact, hist, orig, nops>>
+  /\ l' = l + 1 /\ UNCHANGED <<n, st, model, batch, rec, maxlim, mg, lastact, hist, orig, its, nops>>
+
+(* ---- C10: iterators ------------------------------------------------------------ *)
+\* The reference iterator (Iter.tla): the snapshot is the model at creation; the keys it yields are the live
+\* keys with the prefix (E.match: the ranks that have it), ascending or descending; rc is the cursor.
+\* Seek targets are logged in doubled rank space: 2r = key r itself, 2r+1 = a byte string strictly between
+\* key r and key r+1.
+RECURSIVE Rev(_)
+Rev(sq) == IF sq = <<>> THEN <<>> ELSE Rev(Tail(sq)) \o <<Head(sq)>>
+RefList(it) == LET a == AscFrom(Live(it.snap) \cap it.match, 1) IN IF it.rev THEN Rev(a) ELSE a
+AtOrAfter(it, k, t) == IF it.rev THEN 2 * k <= t ELSE 2 * k >= t
+RefSeek(it, t) == LET L == RefList(it)
+                      S == {i \in 1..Len(L) : AtOrAfter(it, L[i], t)}
+                  IN IF S = {} THEN Len(L) + 1 ELSE CHOOSE i \in S : \A j \in S : i <= j
+\* what Valid / Key / Value must report with the cursor at rc
+Shows(it, rc, e) == LET L == RefList(it) IN
+    IF rc > Len(L) THEN ~e.valid
+    ELSE e.valid /\ e.key = L[rc] /\ e.val = it.snap[L[rc]] /\ e.valerr = "ok"
+SeqSet(sq) == {sq[i] : i \in 1..Len(sq)}
+
+TINew == /\ Is("inew") /\ st = "open" /\ E.id \notin DOMAIN its
+         /\ LET it == [snap |-> model, match |-> SeqSet(E.match), rev |-> E.rev, rc |-> 1, moved |-> FALSE] IN
+            /\ its' = its @@ (E.id :> it)
+            /\ Must("iter", Shows(it, 1, E))          \* a fresh iterator is positioned on its first key
+         /\ l' = l + 1 /\ UNCHANGED <<n, st, model, batch, rec, maxlim, mg, lastact, hist, orig, nops>>
+
+TICall == /\ Is("icall") /\ E.id \in DOMAIN its
+          /\ LET it == its[E.id]
+                 L == RefList(it)
+                 legal == E.op # "Seek" \/ ~it.moved \/ RefSeek(it, E.t) >= it.rc
+                 rc2 == CASE E.op = "Rewind" -> 1
+                          [] E.op = "Next"   -> IF it.rc <= Len(L) THEN it.rc + 1 ELSE it.rc
+                          [] E.op = "Seek"   -> RefSeek(it, E.t)
+                          [] OTHER -> it.rc
+             IN /\ (IF legal THEN TRUE ELSE Print(<<"DRIVER-BUG illegal Seek generated at line", l>>, FALSE))
+                /\ its' = [its EXCEPT ![E.id] = [it EXCEPT !.rc = rc2, !.moved = E.op # "Rewind"]]
+                /\ Must("iter", Shows(it, rc2, E))
+          /\ l' = l + 1 /\ UNCHANGED <<n, st, model, batch, rec, maxlim, mg, lastact, hist, orig, nops>>
+
+TIClose == /\ Is("iclose") /\ E.id \in DOMAIN its
+           /\ its' = [h \in DOMAIN its \ {E.id} |-> its[h]]
+           /\ l' = l + 1 /\ UNCHANGED <<n, st, model, batch, rec, maxlim, mg, lastact, hist, orig, nops>>
 
 \* driver-side facts that must simply be true (canaries of C15, digests of C14)
 TNote == /\ Is("note")
          /\ Must(E.check, E.ok)
-         /\ l' = l + 1 /\ UNCHANGED <<n, st, model, batch, rec, maxlim, mg, lastact, hist, orig, nops>>
+         /\ l' = l + 1 /\ UNCHANGED <<n, st, model, batch, rec, maxlim, mg, lastact, hist, orig, its, nops>>
 
-Next == TReset \/ TOp \/ TDump \/ TBDump \/ THint \/ THintCmp \/ TDBase \/ TDamage \/ TNote
+Next == TReset \/ TOp \/ TDump \/ TBDump \/ THint \/ THintCmp \/ TDBase \/ TDamage \/ TINew \/ TICall \/ TIClose \/ TNote
 Spec == Init /\ [][Next]_vars
 
 (* ---- acceptance: the whole file was consumed --------------------------- *)
